@@ -417,7 +417,7 @@ func genND(c *core.Ctx) [][]byte {
 
 func Gen(c *core.Ctx) {
 	r := c.Rnd
-	rule := "hnd.arp / hnd.icmp6: the raw frames of the arp.frame and nd.frame generators (well-formed requests / probes / replies / announcements / router advertisements with option lists, corrupted header fields, truncation at every length, tags, other EtherTypes, random bytes) plus neighbour solicitations for global / link-local / mapped / multicast targets, neighbour advertisements with every flag combination, the other ICMPv6 types and short bodies; one to three frames (and Close for ICMPv6) per handler; the environment is a working (mostly), failing or nil connection, a 6-byte or missing interface MAC, a present or absent link-local address; hnd.icmp4: ICMPv4 frames of every type incl. destination-unreachable with embedded headers.  non-trivial = at least one frame long enough to reach the handler"
+	rule := "hnd.arp / hnd.icmp6: the raw frames of the arp.frame and nd.frame generators (well-formed requests / probes / replies / announcements / router advertisements with option lists, corrupted header fields, truncation at every length, tags, other EtherTypes, random bytes) plus neighbour solicitations for global / link-local / mapped / multicast targets, neighbour advertisements with every flag combination, the other ICMPv6 types and short bodies; one to three frames (and Close for ICMPv6) per handler; the environment is a working (mostly), failing or nil connection, a 6-byte or missing interface MAC, a present or absent link-local address; hnd.icmp4: ICMPv4 frames of every type incl. destination-unreachable with embedded headers, and every type with message sizes from 8 bytes to the Ethernet MTU (28 sizes quick, +114 thorough).  non-trivial = at least one frame long enough to reach the handler"
 	for _, l := range c.CorpusLines() {
 		if strings.HasPrefix(l, "hnd.") {
 			add(c, "hnd-corpus", l)
@@ -522,6 +522,28 @@ func Gen(c *core.Ctx) {
 			fr[r.Intn(len(fr))] ^= byte(1 << uint(r.Intn(8)))
 		}
 		add(c, "hnd-icmp4", fmt.Sprintf("hnd.icmp4 %s %s %s 24 %s", hx(sess.HostMAC), hx(sess.RouterMAC), lan, hx(fr)))
+	}
+	// size sweep: every ICMPv4 type with message sizes up to the Ethernet MTU (the handler logs whole payloads:
+	// a field appended after a truncated byte array sits at the end of the 2048-byte log line)
+	sizes := []int{0, 1, 7, 8, 20, 28, 64, 128, 256, 512, 548, 556, 600, 620, 628, 629, 630, 640, 676, 677, 678, 700, 800, 1000, 1200, 1400, 1471, 1472}
+	if c.Scale(0, 1) == 1 {
+		for k := 0; k <= 1472; k += 13 {
+			sizes = append(sizes, k)
+		}
+	}
+	for _, t := range []int{0, 8, 5, 3, 4, 11, 12, 13, 14, 17, 18, 200} {
+		for _, k := range sizes {
+			body := frames.ICMP(t, r.Intn(4), r.Intn(65536), r.Intn(65536), nil)
+			rest := c.RandBytes(k)
+			if (t == 3 || t == 5 || t == 11 || t == 12) && k >= 20 { // messages that quote the offending datagram
+				proto := []int{17, 6, 1}[r.Intn(3)]
+				inner := frames.IP4(frames.IP4Opts{Src: []byte{192, 168, 0, 129}, Dst: []byte{8, 8, 8, 8}, Proto: proto, TotalLen: -1, IHL: 5}, rest[20:])
+				copy(rest, inner)
+			}
+			body = append(body, rest...)
+			fr := frames.Ether(sess.HostMAC, peer, 0x0800, 0, frames.IP4(frames.IP4Opts{Src: []byte{192, 168, 0, 77}, Dst: []byte{192, 168, 0, 129}, Proto: 1, TotalLen: -1, IHL: 5}, body))
+			add(c, "hnd-icmp4-size", fmt.Sprintf("hnd.icmp4 %s %s %s 24 %s", hx(sess.HostMAC), hx(sess.RouterMAC), lan, hx(fr)))
+		}
 	}
 	c.Res.Rule = rule
 }
